@@ -6,7 +6,7 @@ func init() {
 		Title: "Hybrid search = metadata pre-filter, per-modality top-k, fusion, ranking",
 		Harnesses: []*HarnessSpec{
 			{Name: "H_C05_main", Tier: "quick", What: "flat(l2sq,d=1) + BM25 + metadata; 3 documents with different modality subsets (symbolic vectors, symbolic integer metadata); query = any combination of vector / text (matching / matching nothing) / filter (matching some / nothing / symbolic integer bound); 4 fusion kinds with symbolic finite weights and K>0; k any int >= 1. Oracle by composition with the sub-index public APIs: candidate set, per-modality top-k inside it, fusion branch, descending order, truncation", Covers: []string{"fused", "vector-only", "text-only", "metadata-only", "filter-matches-nothing", "query-matches-nothing"}},
-			{Name: "H_C05_options", Tier: "quick", What: "options the hybrid search hands through, one family at a time, 3 documents with symbolic vectors and integer metadata, k any int >= 1: WithMetadataGroups alone and next to WithMetadata, WithFusionKind (4 kinds, default configuration), WithThreshold (any non-NaN float32), two text queries under sum / max / mean aggregation, WithCutoff in {-1,0,1,2}; same oracle by composition (the sub-searches get the same options)", Covers: []string{"ran", "fused", "vector-only", "text-only"}},
+			{Name: "H_C05_options", Tier: "quick", What: "options the hybrid search hands through, one family at a time, 3 documents with symbolic vectors and integer metadata, k any int >= 1: WithMetadataGroups alone and next to WithMetadata, WithFusionKind (4 kinds, default configuration), WithThreshold (any non-NaN float32), two text queries under sum / max / mean aggregation, WithCutoff in {-1,0,1,2}; same oracle by composition (the sub-searches get the same options)", Covers: []string{"ran", "fused", "vector-only", "text-only", "filter-matches-nothing"}},
 			{Name: "H_C05_config", Tier: "quick", What: "all 8 combinations of configured sub-indexes x query part: unconfigured modality is an error; metadata-only score is 1", Covers: []string{"configured", "unconfigured"}},
 		},
 		ModelDiff:   true,
